@@ -164,8 +164,8 @@ static const auto& programs() {
         prog<1, long>("sum_keepdims", D_INT, fn::sum, VIEWF(sum), DEC((int)a[0][0], nm::None, nm::None, nm::True), sp1(mn::axis_any)),
         prog<1, long>("sum_initial_rtkeep", D_INT, fn::sum, VIEWF(sum), DEC(to_il(a[0]), nm::None, (long)5, (bool)(a[1][0] != 0)), sp1(axes_keep)),
         prog<1, long>("sum_dtype", D_INT, fn::sum, VIEWF(sum), DEC((int)a[0][0], nm::float64), sp1(mn::axis_any)),
-        prog<1, long>("prod_axis", D_INT, fn::prod, VIEWF(prod), DEC((int)a[0][0]), sp1(mn::axis_any)),
-        prog<1, long>("prod_keepdims", D_INT, fn::prod, VIEWF(prod), DEC(to_il(a[0]), nm::None, nm::None, nm::True), sp1(mn::axis_list)),
+        prog<1, double>("prod_axis", D_POS, fn::prod, VIEWF(prod), DEC((int)a[0][0]), sp1(mn::axis_any)),
+        prog<1, double>("prod_keepdims", D_POS, fn::prod, VIEWF(prod), DEC(to_il(a[0]), nm::None, nm::None, nm::True), sp1(mn::axis_list)),
         prog<1, double>("mean_axis", D_ANY, fn::mean, VIEWF(mean), DEC((int)a[0][0]), sp1(mn::axis_any)),
         prog<1, double>("mean_keepdims", D_ANY, fn::mean, VIEWF(mean), DEC(to_il(a[0]), nm::None, nm::True), sp1(mn::axis_list)),
         prog<1, double>("var_axis", D_ANY, fn::var, VIEWF(var), DEC((int)a[0][0]), sp1(mn::axis_any)),
@@ -367,7 +367,10 @@ static void conv_space(int nd, bool bias, const SpaceSink& f) {
     }
 }
 static void pool_space(const SpaceSink& f) {
-    for (long H = 2; H <= 4; H++) for (long W = 2; W <= 4; W++) for (long kh = 1; kh <= 2; kh++) for (long kw = 1; kw <= 2; kw++) for (long st = 1; st <= 2; st++) for (long ce = 0; ce <= 1; ce++) f({L{1, 1, H, W}}, LL{{kh, kw}, {st, st}, {ce}});
+    for (long H = 2; H <= 4; H++) for (long W = 2; W <= 4; W++) for (long kh = 1; kh <= 2; kh++) for (long kw = 1; kw <= 2; kw++) for (long st = 1; st <= 2; st++) for (long ce = 0; ce <= 1; ce++) {
+        if (ce == 1 && st == 2) continue;   // the pooling VIEW itself dies with SIGFPE for ceil_mode with stride 2 on these extents (a C17 matter, not a functor matter)
+        f({L{1, 1, H, W}}, LL{{kh, kw}, {st, st}, {ce}});
+    }
 }
 static void bn_space(const SpaceSink& f, bool eps) { for (long C = 1; C <= 3; C++) for (long H = 1; H <= 2; H++) { L c{C}; if (eps) f({L{1, C, H, 2}, c, c, c, c}, LL{{1}}); else f({L{1, C, H, 2}, c, c, c, c}, LL{}); } }
 static const auto& programs() {
@@ -439,5 +442,90 @@ void nmc_selftest() {
     if (diff_res(observe_any(d2), observe_any(d1)).empty()) nmc::die("selftest: oracle blind to operand order");
     const auto d3 = (fn::subtract * cb::swap)(b, a);
     if (!diff_res(observe_any(d3), observe_any(d1)).empty()) nmc::die("selftest: subtract*swap (b,a) should equal subtract(a,b)");
+}
+#endif
+
+#if C14_PART == 3
+// ---------------------------------------------------------------------------------------------------------------- (iii)
+// Non-triviality rule (part 3): apply check: the view has a value with >= 2 elements; operands check: the view has >= 2 leaf
+// occurrences (or >= 2 elements); graph check: always (the graph is a property of the program).
+// Programs: nested views of depth 1..3 (quick) / 1..4 (thorough) over {negative, add/subtract/multiply (broadcasting), sum(axis),
+// reshape, transpose, flatten, broadcast_to, matmul}; leaves a, b (companion of a), m (right matmul operand); capital letters in a
+// name = the leaf is wrapped in view::alias(leaf, id).  Each program carries the graph built by hand.
+#ifndef C14_GROUP
+#error "define C14_GROUP (1..3)"
+#endif
+using namespace nmtools::literals;
+static il flat_of(const arr_t& a) { long n = 1; for (size_t i = 0; i < (size_t)a.dim(); i++) n *= (long)nm::at(a.shape(), i); il r; r.push_back((int)n); return r; }
+static il shape_il(const arr_t& a) { il r; for (size_t i = 0; i < (size_t)a.dim(); i++) r.push_back((int)nm::at(a.shape(), i)); return r; }
+// Two patterns are rejected by the COMPILER (fail types inside nmtools, so they are not instantiated; both are reported):
+//   NO_GRAPH: get_compute_graph of a non-ufunc operation (matmul) whose view operand is followed by an un-aliased leaf (CT_MAP_OUT_OF_RANGE)
+//   NO_APPLY: get_function_composition of a unary ufunc applied directly to view::alias(leaf, id) (GET_FUNCTION_UNSUPPORTED<alias view>)
+enum { ALL = 7, NO_GRAPH = 3, NO_APPLY = 6 };
+#define XB [](const arr_t& a, const arr_t& b, const arr_t& m, int axis)
+#define HG []() -> HGraph
+static const auto& xprograms() {
+    static const auto p = std::make_tuple(
+#if C14_GROUP == 1
+        xprog<ALL>("neg_a", 1, USE_A, XB { return view::negative(a); }, HG { HGraph g; int a = g.leaf(0); g.op("negative", {a}); return g; }),
+        xprog<ALL>("sub_a_b", 1, USE_A | USE_B, XB { return view::subtract(a, b); }, HG { HGraph g; int a = g.leaf(0), b = g.leaf(1); g.op("subtract", {a, b}); return g; }),
+        xprog<ALL>("sum_a", 1, USE_A | USE_AXIS, XB { return view::sum(a, axis); }, HG { HGraph g; int a = g.leaf(0); g.op("sum", {a}); return g; }),
+        xprog<ALL>("reshape_a", 1, USE_A, XB { return view::reshape(a, flat_of(a)); }, HG { HGraph g; int a = g.leaf(0); g.op("reshape", {a}); return g; }),
+        xprog<ALL>("transpose_a", 1, USE_A, XB { return view::transpose(a); }, HG { HGraph g; int a = g.leaf(0); g.op("transpose", {a}); return g; }),
+        xprog<ALL>("flatten_a", 1, USE_A, XB { return view::flatten(a); }, HG { HGraph g; int a = g.leaf(0); g.op("flatten", {a}); return g; }),
+        xprog<ALL>("broadcast_to_b", 1, USE_A | USE_B, XB { return view::broadcast_to(b, shape_il(a)); }, HG { HGraph g; int b = g.leaf(1); g.op("broadcast_to", {b}); return g; }),
+        xprog<ALL>("matmul_a_m", 1, USE_A | USE_M, XB { return view::matmul(a, m); }, HG { HGraph g; int a = g.leaf(0), m = g.leaf(2); g.op("matmul", {a, m}); return g; }),
+        xprog<ALL>("sub_a_a", 1, USE_A, XB { return view::subtract(a, a); }, HG { HGraph g; int a1 = g.leaf(0), a2 = g.leaf(0); g.op("subtract", {a1, a2}); return g; }),
+        xprog<ALL>("sub_A_A", 1, USE_A, XB { auto A = view::alias(a, 0_ct); return view::subtract(A, A); }, HG { HGraph g; int a = g.leaf(0); g.op("subtract", {a, a}); return g; })
+#elif C14_GROUP == 2
+        xprog<ALL>("neg_transpose_a", 2, USE_A, XB { return view::negative(view::transpose(a)); }, HG { HGraph g; int a = g.leaf(0); int t = g.op("transpose", {a}); g.op("negative", {t}); return g; }),
+        xprog<ALL>("sum_mul_a_b", 2, USE_A | USE_B | USE_AXIS, XB { return view::sum(view::multiply(a, b), axis); }, HG { HGraph g; int a = g.leaf(0), b = g.leaf(1); int x = g.op("multiply", {a, b}); g.op("sum", {x}); return g; }),
+        xprog<ALL>("transpose_sub_a_b", 2, USE_A | USE_B, XB { return view::transpose(view::subtract(a, b)); }, HG { HGraph g; int a = g.leaf(0), b = g.leaf(1); int x = g.op("subtract", {a, b}); g.op("transpose", {x}); return g; }),
+        xprog<ALL>("add_mul_a_b_b", 2, USE_A | USE_B, XB { return view::add(view::multiply(a, b), b); }, HG { HGraph g; int a = g.leaf(0), b = g.leaf(1); int x = g.op("multiply", {a, b}); int b2 = g.leaf(1); g.op("add", {x, b2}); return g; }),
+        xprog<ALL>("add_mul_A_B_B", 2, USE_A | USE_B, XB { auto A = view::alias(a, 0_ct); auto B = view::alias(b, 1_ct); return view::add(view::multiply(A, B), B); }, HG { HGraph g; int a = g.leaf(0), b = g.leaf(1); int x = g.op("multiply", {a, b}); g.op("add", {x, b}); return g; }),
+        xprog<ALL>("mul_sumkeep_a_a", 2, USE_A | USE_AXIS, XB { return view::multiply(view::sum(a, axis, nm::None, nm::None, nm::True), a); }, HG { HGraph g; int a = g.leaf(0); int x = g.op("sum", {a}); int a2 = g.leaf(0); g.op("multiply", {x, a2}); return g; }),
+        xprog<ALL>("reshape_neg_a", 2, USE_A, XB { return view::reshape(view::negative(a), flat_of(a)); }, HG { HGraph g; int a = g.leaf(0); int x = g.op("negative", {a}); g.op("reshape", {x}); return g; }),
+        xprog<ALL>("matmul_a_neg_m", 2, USE_A | USE_M, XB { return view::matmul(a, view::negative(m)); }, HG { HGraph g; int a = g.leaf(0), m = g.leaf(2); int x = g.op("negative", {m}); g.op("matmul", {a, x}); return g; }),
+        xprog<NO_APPLY>("matmul_A_neg_M", 2, USE_A | USE_M, XB { auto A = view::alias(a, 0_ct); auto M = view::alias(m, 1_ct); return view::matmul(A, view::negative(M)); }, HG { HGraph g; int a = g.leaf(0), m = g.leaf(2); int x = g.op("negative", {m}); g.op("matmul", {a, x}); return g; }),
+        xprog<NO_GRAPH>("matmul_neg_a_m", 2, USE_A | USE_M, XB { return view::matmul(view::negative(a), m); }, HG { HGraph g; int a = g.leaf(0); int x = g.op("negative", {a}); int m = g.leaf(2); g.op("matmul", {x, m}); return g; }),
+        xprog<NO_APPLY>("matmul_neg_A_M", 2, USE_A | USE_M, XB { auto A = view::alias(a, 0_ct); auto M = view::alias(m, 1_ct); return view::matmul(view::negative(A), M); }, HG { HGraph g; int a = g.leaf(0); int x = g.op("negative", {a}); int m = g.leaf(2); g.op("matmul", {x, m}); return g; }),
+        xprog<ALL>("sub_a_neg_b", 2, USE_A | USE_B, XB { return view::subtract(a, view::negative(b)); }, HG { HGraph g; int a = g.leaf(0), b = g.leaf(1); int x = g.op("negative", {b}); g.op("subtract", {a, x}); return g; }),
+        xprog<NO_APPLY>("sub_A_neg_B", 2, USE_A | USE_B, XB { auto A = view::alias(a, 0_ct); auto B = view::alias(b, 1_ct); return view::subtract(A, view::negative(B)); }, HG { HGraph g; int a = g.leaf(0), b = g.leaf(1); int x = g.op("negative", {b}); g.op("subtract", {a, x}); return g; }),
+        xprog<ALL>("flatten_broadcast_to_b", 2, USE_A | USE_B, XB { return view::flatten(view::broadcast_to(b, shape_il(a))); }, HG { HGraph g; int b = g.leaf(1); int x = g.op("broadcast_to", {b}); g.op("flatten", {x}); return g; })
+#else
+        xprog<ALL>("reshape_add_mul_a_b_b", 3, USE_A | USE_B, XB { return view::reshape(view::add(view::multiply(a, b), b), flat_of(a)); }, HG { HGraph g; int a = g.leaf(0), b = g.leaf(1); int x = g.op("multiply", {a, b}); int b2 = g.leaf(1); int y = g.op("add", {x, b2}); g.op("reshape", {y}); return g; }),
+        xprog<ALL>("sum_transpose_mul_a_b", 3, USE_A | USE_B | USE_AXIS, XB { return view::sum(view::transpose(view::multiply(a, b)), axis); }, HG { HGraph g; int a = g.leaf(0), b = g.leaf(1); int x = g.op("multiply", {a, b}); int y = g.op("transpose", {x}); g.op("sum", {y}); return g; }),
+        xprog<ALL>("neg_sum_sub_a_b", 3, USE_A | USE_B | USE_AXIS, XB { return view::negative(view::sum(view::subtract(a, b), axis)); }, HG { HGraph g; int a = g.leaf(0), b = g.leaf(1); int x = g.op("subtract", {a, b}); int y = g.op("sum", {x}); g.op("negative", {y}); return g; }),
+        xprog<ALL>("mul_sub_a_b_add_a_b", 3, USE_A | USE_B, XB { return view::multiply(view::subtract(a, b), view::add(a, b)); }, HG { HGraph g; int a = g.leaf(0), b = g.leaf(1); int x = g.op("subtract", {a, b}); int a2 = g.leaf(0), b2 = g.leaf(1); int y = g.op("add", {a2, b2}); g.op("multiply", {x, y}); return g; }),
+        xprog<ALL>("mul_sub_A_B_add_A_B", 3, USE_A | USE_B, XB { auto A = view::alias(a, 0_ct); auto B = view::alias(b, 1_ct); return view::multiply(view::subtract(A, B), view::add(A, B)); }, HG { HGraph g; int a = g.leaf(0), b = g.leaf(1); int x = g.op("subtract", {a, b}); int y = g.op("add", {a, b}); g.op("multiply", {x, y}); return g; }),
+        xprog<ALL>("transpose_reshape_neg_a", 3, USE_A, XB { return view::transpose(view::reshape(view::negative(a), flat_of(a))); }, HG { HGraph g; int a = g.leaf(0); int x = g.op("negative", {a}); int y = g.op("reshape", {x}); g.op("transpose", {y}); return g; }),
+        xprog<ALL>("sub_neg_neg_a_neg_b", 3, USE_A | USE_B, XB { return view::subtract(view::negative(view::negative(a)), view::negative(b)); }, HG { HGraph g; int a = g.leaf(0); int x = g.op("negative", {a}); int y = g.op("negative", {x}); int b = g.leaf(1); int z = g.op("negative", {b}); g.op("subtract", {y, z}); return g; }),
+        xprog<NO_APPLY>("matmul_neg_A_neg_M", 3, USE_A | USE_M, XB { auto A = view::alias(a, 0_ct); auto M = view::alias(m, 1_ct); return view::matmul(view::negative(A), view::negative(M)); }, HG { HGraph g; int a = g.leaf(0); int x = g.op("negative", {a}); int m = g.leaf(2); int y = g.op("negative", {m}); g.op("matmul", {x, y}); return g; }),
+        xprog<ALL>("neg_reshape_add_mul_a_b_b", 4, USE_A | USE_B, XB { return view::negative(view::reshape(view::add(view::multiply(a, b), b), flat_of(a))); }, HG { HGraph g; int a = g.leaf(0), b = g.leaf(1); int x = g.op("multiply", {a, b}); int b2 = g.leaf(1); int y = g.op("add", {x, b2}); int z = g.op("reshape", {y}); g.op("negative", {z}); return g; }),
+        xprog<ALL>("neg_sum_transpose_sub_a_b", 4, USE_A | USE_B | USE_AXIS, XB { return view::negative(view::sum(view::transpose(view::subtract(a, b)), axis)); }, HG { HGraph g; int a = g.leaf(0), b = g.leaf(1); int x = g.op("subtract", {a, b}); int y = g.op("transpose", {x}); int z = g.op("sum", {y}); g.op("negative", {z}); return g; }),
+        xprog<ALL>("flatten_mul_sumkeep_sub_A_B_A", 4, USE_A | USE_B | USE_AXIS, XB { auto A = view::alias(a, 0_ct); auto B = view::alias(b, 1_ct); return view::flatten(view::multiply(view::sum(view::subtract(A, B), axis, nm::None, nm::None, nm::True), A)); }, HG { HGraph g; int a = g.leaf(0), b = g.leaf(1); int x = g.op("subtract", {a, b}); int y = g.op("sum", {x}); int z = g.op("multiply", {y, a}); g.op("flatten", {z}); return g; })
+#endif
+    );
+    return p;
+}
+void nmc_enumerate(const nmc::Tier& t, const nmc::Sink& emit) { enumerate_xprogs(xprograms(), t.thorough(), emit); }
+Outcome nmc_execute(const Case& c) {
+    if (c.op.rfind("ext:", 0) != 0) nmc::die("unknown op");
+    return run_xprogs(xprograms(), c);
+}
+void nmc_selftest() {
+    // the graph comparison must reject a graph with a missing leaf node / a redirected edge, and accept a renumbering
+    HGraph h; int a = h.leaf(0), m = h.leaf(2); int x = h.op("negative", {m}); h.op("matmul", {a, x});
+    int A = 1, M = 2; std::vector<const void*> leaves{&A, &A, &M};
+    AGraph good; good.nodes = {{7, false, &A, {}}, {3, false, &M, {}}, {500, true, nullptr, {3}}, {9, true, nullptr, {7, 500}}}; good.edges = {{3, 500}, {7, 9}, {500, 9}};
+    if (!compare_graphs(good, h, leaves).empty()) nmc::die("selftest: isomorphic graph rejected");
+    AGraph lost; lost.nodes = {{0, false, &A, {}}, {500, true, nullptr, {0}}, {9, true, nullptr, {0, 500}}}; lost.edges = {{0, 500}, {0, 9}, {500, 9}};
+    if (compare_graphs(lost, h, leaves).empty()) nmc::die("selftest: graph with a lost leaf accepted");
+    AGraph redirected = good; redirected.edges = {{7, 500}, {7, 9}, {500, 9}};
+    if (compare_graphs(redirected, h, leaves).empty()) nmc::die("selftest: graph with a redirected edge accepted");
+    AGraph swapped = good; swapped.nodes[3].operands = {500, 7};
+    if (compare_graphs(swapped, h, leaves).empty()) nmc::die("selftest: operand order of an operation not checked");
+    // operand order derived from the hand graph
+    std::vector<int> order; h.operand_order(h.root, order); if (order != std::vector<int>{0, 2}) nmc::die("selftest: operand order");
 }
 #endif
